@@ -1522,8 +1522,8 @@ fn main() {
     eng.assume("'picture' = buffer size and, per cell, character, colour indices, attribute bits, font page and the palette RGB of both colours");
     eng.assume("content that by itself ends in a well-formed record is ambiguous for Buffer::from_bytes: its reference picture is taken from the format loader called without SAUCE");
 
-    eng.generated_with_class(PartCfg::new("meta_roundtrip", 240_000, 4_000_000), || wcases(false), check_meta, |c: &WCase| format!("fmt={}", ext(c.fmt)));
-    eng.generated_with_class(PartCfg::new("writer_split", 100_000, 1_600_000), || wcases(true), check_writer_split, |c: &WCase| format!("fmt={}", ext(c.fmt)));
+    eng.generated_with_class(PartCfg::new("meta_roundtrip", 200_000, 3_600_000), || wcases(false), check_meta, |c: &WCase| format!("fmt={}", ext(c.fmt)));
+    eng.generated_with_class(PartCfg::new("writer_split", 70_000, 1_200_000), || wcases(true), check_writer_split, |c: &WCase| format!("fmt={}", ext(c.fmt)));
     eng.generated_with_class(PartCfg::new("reader_split", 160_000, 2_400_000), rcases, check_reader_split, |c: &RCase| format!("fmt={}", ext(c.fmt)));
     eng.enumerated(PartCfg::new("degenerate", 0, 0).exhaustive(true), 2048, dcase, check_degenerate);
     eng.enumerated(PartCfg::new("size_grid", 0, 0).exhaustive(true), (GRID_FMTS.len() * GRID_W.len() * GRID_H.len()) as u64, grid_case, check_meta);
